@@ -542,12 +542,16 @@ func init() {
 			for _, s := range seqs {
 				js = append(js, JobSpec{Set: "redis", Fn: "HarnessC15Lifecycle", Params: p("seq", s, "clients", cl, "preempt", pre), Split: 6, Overrides: netOverrides})
 			}
+			// both ports (TLS handshake stubbed): the TLS accept loop has its own shutdown path
+			for _, s := range []string{"SRT", "STS", "SRTS"} {
+				js = append(js, JobSpec{Set: "redis", Fn: "HarnessC15Lifecycle", Params: p("seq", s, "clients", "0", "preempt", "1", "tls", "1"), Split: 6, Overrides: netOverrides})
+			}
 			return js
 		},
 		EngineOnly:     map[string]bool{"HarnessC15Lifecycle": true},
 		RequiredCovers: map[string][]string{"HarnessC15Lifecycle": {"end", "started", "stopped", "call-failed"}},
 		Bounds: func(tier string) map[string]interface{} {
-			return map[string]interface{}{"histories": "Start/Stop/Restart sequences ST, SR, SRT, STS, SRR, SS (thorough: + STST, SRTS, STSR, SRRT)", "clients": "1 (thorough 2) clients, each arriving while a nondeterministically chosen lifecycle call executes, then idle", "schedules": "caller, accept loops, connection goroutines and clients interleaved at synchronisation operations and at the verif-tagged schedule points, <=1 (thorough 2) preemptions", "network": "stub port table (bind fails while a listener on the port is open; closing a listener resets queued connections; a blocked Accept returns on close)"}
+			return map[string]interface{}{"histories": "Start/Stop/Restart sequences ST, SR, SRT, STS, SRR, SS (thorough: + STST, SRTS, STSR, SRRT) on the plain port; SRT, STS, SRTS with the TLS port enabled as well", "clients": "1 (thorough 2) clients, each arriving while a nondeterministically chosen lifecycle call executes, then idle", "schedules": "caller, accept loops, connection goroutines and clients interleaved at synchronisation operations and at the verif-tagged schedule points, <=1 (thorough 2) preemptions", "network": "stub port table (bind fails while a listener on the port is open; closing a listener resets queued connections; a blocked Accept returns on close)"}
 		},
 		Assumptions: append([]string{
 			"net.Listen is redirected to the harness's port table; Accept blocks until a connection is queued or the listener is closed",
